@@ -976,7 +976,10 @@ class Container:
                     converted_value, unit = Unit.get_human_readable_unit(converted_value, unit)
                     precision = config.precisions[unit] if unit in config.precisions else config.precisions['default']
                     columns.append(f"{round(converted_value, precision)} {unit}")
-            df.loc[substance.name] = columns
+            label = substance.name
+            while label in df.index:  # (a second substance of that name, e.g. another lot of an enzyme: its own row)
+                label += "'"
+            df.loc[label] = columns
         columns = []
         for unit in ['L', 'g', 'mol', 'U']:
             value = totals[unit]
